@@ -14,4 +14,9 @@ def VER(name, mode):
 
 
 HARNESSES = [VER("srv_legacy_version", 1), VER("srv_supported_versions", 2), VER("cli_version", 3)]
-PROPERTY = dict(level="model_checking", explanation="", bounds="", outside="", assumptions=[])
+PROPERTY = dict(level='model_checking',
+    claim="Server and client version selection: the negotiated version is enabled by us, not above the client's, in the client's family, the first acceptable one in our priority order; with supported_versions it is in the intersection, TLS 1.3 only if a TLS 1.3 suite was offered and always when both have it; a <1.3 ServerHello carrying a downgrade sentinel is refused.",
+    bounds='every non-empty subset (<=3 members) of one version family as the enabled set, any priority order; peer lists <= 3 versions',
+    outside='cipher-suite, group and signature-algorithm selection, fallback SCSV, extended master secret',
+    explanation="Server and client version selection: the negotiated version is enabled by us, not above the client's, in the client's family, the first acceptable one in our priority order; with supported_versions it is in the intersection, TLS 1.3 only if a TLS 1.3 suite was offered and always when both have it; a <1.3 ServerHello carrying a downgrade sentinel is refused.",
+    assumptions=[])
